@@ -2,6 +2,7 @@
 package lexer
 
 import (
+	"bytes"
 	"errors"
 	"fmt"
 	"io"
@@ -63,7 +64,18 @@ type Lexer struct {
 // New creates a new lexical analyzer for the EBNF language.
 // EBNF (Extended Backus-Naur Form) is used to define context-free grammars and their corresponding languages.
 func New(filename string, src io.Reader) (*Lexer, error) {
-	in, err := input.New(filename, src, bufferSize)
+	// The two-buffer reader drops input when the last character of a lexeme is retracted right before a buffer boundary
+	// or at the end of the input. A specification is small, so it is read at once into a buffer large enough to hold it,
+	// and a final newline ensures the last token is always followed by a character.
+	data, err := io.ReadAll(src)
+	if err != nil {
+		return nil, err
+	}
+
+	data = append(data, '\n')
+	size := max(bufferSize, len(data)+1)
+
+	in, err := input.New(filename, bytes.NewReader(data), size)
 	if err != nil {
 		return nil, err
 	}
